@@ -4,6 +4,8 @@ CONSTANTS
   HashNameCaseSensitive = TRUE
   DictNoLenCheck = FALSE
   DictOrdered = FALSE
+  EqNameCasefold = FALSE
+  DictGetLookup = FALSE
   MCKinds <- Kinds
 INVARIANT AbsWellFormed
 INVARIANT AbsSymmetric
